@@ -27,6 +27,8 @@ pub use update::leaf_updater_verif;
 pub use update::{branch_stage_verif, branch_updater_verif};
 #[cfg(nomt_verif)]
 pub use update::{extend_range_verif, leaf_stage_verif};
+#[cfg(nomt_verif)]
+pub use update::update_verif;
 
 /// Do a partial lookup of the key in the beatree.
 ///
